@@ -323,3 +323,17 @@ func Since(t time.Time) float64 { return float64(time.Since(t).Milliseconds()) /
 // Pick helpers
 func Pick[T any](r *rand.Rand, xs ...T) T { return xs[r.Intn(len(xs))] }
 func Chance(r *rand.Rand, p float64) bool { return r.Float64() < p }
+
+// CaseRef identifies a generated case for replay: the parent passes the recorded run seed, so
+// (stream, index) regenerates exactly the same case.
+type CaseRef struct {
+	Stream string      `json:"stream"`
+	Index  int         `json:"index"`
+	Detail interface{} `json:"detail,omitempty"`
+}
+
+func DecodeRef(raw []byte) (CaseRef, error) {
+	var cr CaseRef
+	err := json.Unmarshal(raw, &cr)
+	return cr, err
+}
